@@ -69,6 +69,7 @@ THEOREMS = [
     'C17_fill_array_short_rejected_any',
     'C17_lattice_no_opt_rejected_any',
     'C17_arrives_options',
+    'C17_arrives_options_more',
     'C17_surplus_surface_params_exact',
     'C17_fill_array_trailing_numbers',
     'C17_facet_skipped_cells_unchecked',
